@@ -103,6 +103,23 @@ func genSchema(t *rapid.T) *tm.Universe {
 	u := &tm.Universe{}
 	u.Structs = append(u.Structs, tm.StructDef{Name: "Req", Fields: genReqFields(t, rapid.IntRange(1, 8).Draw(t, "nReq"), "f", true)})
 	u.Structs = append(u.Structs, tm.StructDef{Name: "Inner", Fields: genReqFields(t, rapid.IntRange(1, 4).Draw(t, "nInner"), "g", false)})
+	if rapid.IntRange(0, 2).Draw(t, "noBodyStruct") == 0 {
+		// a struct that is filled from the http sources only (api.no_body_struct): scalar members
+		nb := genReqFields(t, rapid.IntRange(2, 5).Draw(t, "nNB"), "h", false)
+		for i := range nb {
+			if nb[i].T.K == tm.LIST || nb[i].T.K == tm.MAP {
+				nb[i].T = &tm.Type{K: tm.I64}
+			}
+		}
+		u.Structs = append(u.Structs, tm.StructDef{Name: "NB", Fields: nb})
+		req := &u.Structs[0]
+		id := int16(90)
+		for req.Field(id) != nil {
+			id++
+		}
+		req.Fields = append(req.Fields, tm.FieldDef{ID: id, Name: "nb", Req: rapid.IntRange(0, 2).Draw(t, "nbReq"), T: &tm.Type{K: tm.STRUCT, Ref: "NB"},
+			Annos: []tm.Anno{{Key: "api.no_body_struct", Val: ""}}})
+	}
 	u.Root = &tm.Type{K: tm.STRUCT, Ref: "Req"}
 	return u
 }
@@ -397,6 +414,39 @@ func (m *model) firstSource(fd *tm.FieldDef) (string, bool) {
 	return "", false
 }
 
+func isNoBodyStruct(fd *tm.FieldDef) bool {
+	for _, a := range fd.Annos {
+		if a.Key == "api.no_body_struct" {
+			return true
+		}
+	}
+	return false
+}
+
+// noBodyStruct: every http-annotated member from its first source that has a value, else its zero value;
+// members without http annotations are not part of it.
+func (m *model) noBodyStruct(fd *tm.FieldDef) (*tm.Value, error) {
+	sd := m.cs.U.Struct(fd.T.Ref)
+	out := &tm.Value{K: tm.STRUCT}
+	for i := range sd.Fields {
+		f := &sd.Fields[i]
+		if len(annos(f)) == 0 {
+			continue
+		}
+		v, _ := m.firstSource(f)
+		if v == "" {
+			out.Fields = append(out.Fields, tm.FieldVal{ID: f.ID, V: tm.ZeroValue(f.T)})
+			continue
+		}
+		val, err := m.fromText(f.T, v)
+		if err != nil {
+			return nil, fmt.Errorf("model cannot convert %q for %s: %w", v, f.Name, err)
+		}
+		out.Fields = append(out.Fields, tm.FieldVal{ID: f.ID, V: val})
+	}
+	return out, nil
+}
+
 // tryGet: path parameter, query, header, cookie, body member - in that order.
 func (m *model) tryGet(key string) string {
 	for _, v := range []string{m.cs.Params[key], m.cs.Query[key], m.cs.Headers[key], m.cs.Cookies[key], m.bodyMember(key)} {
@@ -556,6 +606,15 @@ func (m *model) strct(sd *tm.StructDef, obj *jmodel.Node, root bool) (*tm.Value,
 			if len(annos(fd)) == 0 {
 				continue
 			}
+			if isNoBodyStruct(fd) {
+				val, err := m.noBodyStruct(fd)
+				if err != nil {
+					return nil, err
+				}
+				add(fd, val)
+				handled[fd.ID] = true
+				continue
+			}
 			v, ok := m.firstSource(fd)
 			if !ok || v == "" {
 				if !ok && o.Fallback {
@@ -660,6 +719,15 @@ func (m *model) noBody(sd *tm.StructDef) (*tm.Value, error) {
 	for i := range sd.Fields {
 		fd := &sd.Fields[i]
 		if len(annos(fd)) == 0 {
+			continue
+		}
+		if isNoBodyStruct(fd) {
+			val, err := m.noBodyStruct(fd)
+			if err != nil {
+				return nil, err
+			}
+			done[fd.ID] = true
+			out.Fields = append(out.Fields, tm.FieldVal{ID: fd.ID, V: val})
 			continue
 		}
 		v, ok := m.firstSource(fd)
@@ -890,7 +958,7 @@ func describe(cs ReqCase) string {
 func ReqProp(name string) pbt.Prop[ReqCase] {
 	return pbt.Prop[ReqCase]{
 		Name:  name,
-		Rule:  "generated request structs (scalar, list and map fields with any ordered list of api.query/path/header/cookie/form [+ api.body last], api.raw_body / api.raw_uri string fields, plain body fields, a nested struct with its own annotated fields, keys shared between fields, any requiredness) x requests built with the library's own HTTPRequest (any subset of sources populated; JSON body / form body / no body; body members in any order; the same request converted twice) x options (EnableHttpMapping, ReadHttpValueFallback, TracebackRequredOrRootFields, Write*Field); oracle = decision-table model: first listed source that has a value, converted by the field type; plain fields from the body; otherwise body fallback / traceback by key / zero filling / missing-field error as the options say; output decoded by the reference codec and compared field by field; non-trivial = mapping enabled",
+		Rule:  "generated request structs (scalar, list and map fields with any ordered list of api.query/path/header/cookie/form [+ api.body last], api.raw_body / api.raw_uri string fields, plain body fields, a nested struct with its own annotated fields, a struct-typed field annotated api.no_body_struct whose scalar members carry their own source lists, keys shared between fields, any requiredness) x requests built with the library's own HTTPRequest (any subset of sources populated; JSON body / form body / no body; body members in any order; the same request converted twice) x options (EnableHttpMapping, ReadHttpValueFallback, TracebackRequredOrRootFields, Write*Field); oracle = decision-table model: first listed source that has a value, converted by the field type; plain fields from the body; an api.no_body_struct field holds exactly its annotated members, each from its first source with a value, else zero; otherwise body fallback / traceback by key / zero filling / missing-field error as the options say; output decoded by the reference codec and compared field by field; non-trivial = mapping enabled",
 		Gen:   genReq,
 		Check: checkReq,
 	}
